@@ -32,7 +32,7 @@ def main():
         rec["checks"] = {}
         for pid in pids:
             t = time.time()
-            e2 = dict(os.environ, VERIF_REPO=wt)
+            e2 = dict(os.environ, VERIF_REPO=wt, VERIF_OUT=wt + "_out")
             rc, out = sh(f"/verif/check {pid} quick", env=e2, cwd="/verif", timeout=1800)
             lines = [l for l in out.splitlines() if l.startswith("VIOLATION") or l.startswith("KNOWN-FINDING")]
             keys = []
@@ -48,6 +48,7 @@ def main():
     finally:
         sh(f"git -C /repo worktree remove --force {wt}")
         shutil.rmtree(wt, ignore_errors=True)
+        shutil.rmtree(wt + "_out", ignore_errors=True)
         sh("git -C /repo worktree prune")
         print(json.dumps(rec, indent=1))
 
